@@ -17,12 +17,19 @@ SPEC = {
             "a wide list or dict at depth d <= 450 of a chain, a chain of depth 10/120/450 at the first/middle/last index of a "
             "wide list, lists of chains, strings and keys of 15 .. 2^20+1 (2^22+1) bytes in five content styles, documents whose "
             "text is exactly 2^k-1, 2^k, 2^k+1 bytes under a rotating mask (k <= 20 / 22; one long string or many small elements), "
-            "nesting depths 1..17, 2^k-1..2^k+1, ... 499, 500, and seeded random trees with log-uniform fan-out. Documents heavier "
+            "nesting depths 1..17, 2^k-1..2^k+1, ... 499, 500, and seeded random trees with log-uniform fan-out. Prior history: on a "
+            "fresh thread, right after each one of the ~280 earlier unrelated uses of phosg's shared helpers in harness/vf_history.hh "
+            "(plus a seeded sample of two-step histories), a ladder of leaf values and small containers whose serialised texts cover "
+            "every length a number, constant, escape or small document can have (decimal ints of 1..19 digits and hex ints of 1..16 "
+            "digits at the lowest / highest / a mixed-digit value with both signs, floats of every %g shape x %g length, null/true/false "
+            "in both spellings, ASCII strings of 0..22 bytes, strings and keys needing 1..4 escapes, lists / dicts over those) under the "
+            "options that change the text, once in increasing and once (another fresh thread) in decreasing order of text length. Documents heavier "
             "than w0 = 128 (512) weight units get a rotating subset of the masks (always one standard mask with default + strict "
             "parser and the CPython comparison; at least three masks), the others all 64. One evaluation = one (tree, mask, mode) round trip, one copy-monitor run, one assignment onto a pre-loaded destination, or one json.loads comparison. "
             "distinct_nontrivial = distinct classes among: option mask x mode (opt3f:default), generated leaf/key/container shape "
             "(gen:float:exp+, gen:key:high), copy-monitor mutation kind, assignment destination kind x source kind, CPython comparison per standard mask x root kind, "
-            "size family x floor(log2(size)) (size:list:2^16), CPython comparison per size family and per floor(log2(text length)).",
+            "size family x floor(log2(size)) (size:list:2^16), CPython comparison per size family and per floor(log2(text length)), "
+            "prior-history value kind x text length (prior:textlen:int-hex:15), order and prior family.",
     "level_text": "Exploration: the real code runs on every generated tree with every option mask; the systematic part "
                   "enumerates each byte value, each power-of-two integer boundary and each decimal exponent, the rest is seeded "
                   "sampling. Container breadth, total node count, string/key length, total text length and nesting "
@@ -58,12 +65,21 @@ SPEC = {
                          "py:family:table:list-of-lists", "py:family:string:root", "py:family:string:key-and-value",
                          "py:family:textlen:pad", "py:family:textlen:elements", "py:family:depth",
                          "py:family:chain-in-wide-list", "py:family:wide-list-at-depth", "py:family:random-wide",
-                         "py:textlen:2^16", "py:textlen:2^20"],
+                         "py:textlen:2^16", "py:textlen:2^20",
+                         "prior:order:increasing", "prior:order:decreasing", "prior:family:none", "prior:family:printf-len",
+                         "prior:family:printf-run", "prior:family:join", "prior:family:format", "prior:textlen:int-dec:1",
+                         "prior:textlen:int-dec:15", "prior:textlen:int-dec:16", "prior:textlen:int-dec:20", "prior:textlen:int-hex:3",
+                         "prior:textlen:int-hex:14", "prior:textlen:int-hex:15", "prior:textlen:int-hex:16", "prior:textlen:int-hex:19",
+                         "prior:textlen:float:plain:3", "prior:textlen:float:exp-:13", "prior:textlen:float:exp+:integral-mantissa:7",
+                         "prior:textlen:float:plain:integral:3", "prior:textlen:trivial:1", "prior:textlen:trivial:5",
+                         "prior:textlen:string:high", "prior:textlen:string:ctrl", "prior:textlen:string:ascii:24",
+                         "prior:textlen:document:2", "prior:textlen:document:24", "py:family:prior-history"],
     "exhaustive": {"quick": False, "thorough": False},
     "exhaustive_note": "enumerated completely: all 64 option masks per tree; all 256 byte values as string and as key; "
                        "2^k-1, 2^k, 2^k+1 and negations for k<64; every decimal exponent -300..300 for 8 mantissas; the size "
                        "ladders (2^k-1, 2^k, 2^k+1, 3*2^(k-1)) of every size family up to its top",
     "assumptions": ASSUME_COMMON + [
+        "prior history is modelled per thread: one earlier use (or two) of the shared helpers on a freshly started thread, then the ladder; process-wide state that survives across threads is covered only by the order in which the shards' threads run",
         "floats are compared at six significant digits (%.5e text of both sides), the precision serialize() keeps; a generated -0.0 / +0.0 must come back with the same sign bit",
         "CPython json.loads is the independent reader; text is mapped latin-1 <-> bytes because phosg writes one \\u00XX escape per byte",
         "NaN, infinities and denormals are outside the statement and are never generated; dictionary key order is not compared",
